@@ -331,7 +331,7 @@ func (c *compiler) evalUpdateIndex(left, index, value interface{}) error {
 	switch rv.Kind() {
 	case reflect.Map:
 		mapType := rv.Type()
-		if index == nil || !reflect.TypeOf(index).AssignableTo(mapType.Key()) || !reflect.TypeOf(index).Comparable() {
+		if index == nil || !reflect.TypeOf(index).AssignableTo(mapType.Key()) || !reflect.ValueOf(index).Comparable() {
 			return fmt.Errorf("cannot use %v (%T) as %s value in map index", index, index, mapType.Key())
 		}
 		if rv.IsNil() {
@@ -384,7 +384,7 @@ func (c *compiler) evalAccessIndex(left, index interface{}, node *ast.IndexExpre
 	rv := reflect.ValueOf(left)
 	switch rv.Kind() {
 	case reflect.Map:
-		if index == nil || !reflect.TypeOf(index).Comparable() {
+		if index == nil || !reflect.ValueOf(index).Comparable() {
 			return nil, fmt.Errorf("cannot use %v (%T) as %s value in map index", index, index, reflect.TypeOf(left).Key())
 		}
 		mapKeyType := reflect.TypeOf(left).Key().Kind()
